@@ -45,6 +45,13 @@ def gen_history(H):
     for i in range(nprob):
         k = H.weighted([("so", 3), ("mo_list", 2), ("mo_bool", 1), ("mo_agg", 1)])
         probs.append({"kind": k, "minimize": [bool(H.draw(2)) for _ in range(3)], "k": 2 + H.draw(2), "reuse_buffer": bool(H.draw(3) == 2)})
+        # several live problems may be built over the SAME fitness-function object (other direction / other aggregate)
+        mates = [j for j in range(i) if (probs[j]["kind"] == "so") == (k == "so")]
+        if mates and H.draw(2):
+            j = H.pick(mates)
+            probs[i]["shares_ff_with"] = probs[j].get("shares_ff_with", j)
+            probs[i]["k"] = probs[j]["k"]
+            probs[i]["reuse_buffer"] = probs[j]["reuse_buffer"]
     n_ind = 1 + H.draw(12)
     calls = []
     for _ in range(1 + H.draw(8)):
@@ -67,6 +74,9 @@ class Exec:
         self.log = []  # (problem index, program value)
         self.rep = make_intrep()
         self.problems = []
+        self.ffs = {}
+        self.cur = [None]  # [index of the problem the current call evaluates for] (a shared fitness function cannot know; a plain
+        # list, so that closures do not drag the simulator context across the simulated process boundary)
         for pi, p in enumerate(hist["problems"]):
             self.problems.append(self.make_problem(pi, p))
         self.inds = [Individual(g, self.rep) for g in hist["genotypes"]]
@@ -77,22 +87,28 @@ class Exec:
         from geneticengine.problems import MultiObjectiveProblem, SingleObjectiveProblem
 
         log = self.log
+        cur = self.cur
+        shared = p.get("shares_ff_with")
         if p["kind"] == "so":
-            def ff(prog, pi=pi):
-                log.append((pi, prog.v, prog))
+            def ff(prog):
+                log.append((cur[0], prog.v, prog))
                 return f_of(prog.v)
+            ff = self.ffs[shared] if shared is not None else ff
+            self.ffs[pi] = ff
             return SingleObjectiveProblem(ff, minimize=p["minimize"][0])
 
         buf = [0.0] * p["k"]
 
-        def ffm(prog, pi=pi, k=p["k"], reuse=p.get("reuse_buffer")):
-            log.append((pi, prog.v, prog))
+        def ffm(prog, k=p["k"], reuse=p.get("reuse_buffer")):
+            log.append((cur[0], prog.v, prog))
             if reuse:
                 # a fitness function that fills and returns the same list object every time
                 for j in range(k):
                     buf[j] = f_of(prog.v, j)
                 return buf
             return [f_of(prog.v, j) for j in range(k)]
+        ffm = self.ffs[shared] if shared is not None else ffm
+        self.ffs[pi] = ffm
         if p["kind"] == "mo_list":
             return MultiObjectiveProblem(list(p["minimize"][: p["k"]]), ffm)
         if p["kind"] == "mo_bool":
@@ -132,6 +148,7 @@ def run(ctx):
             for ci, call in enumerate(hist["calls"]):
                 pi = call["problem"]
                 problem = ex.problems[pi]
+                ex.cur[0] = pi
                 members = [ex.inds[i] for i in call["members"]]
                 if len(set(call["members"])) < len(members) or any(m.has_fitness(problem) for m in members):
                     interesting = True
